@@ -13,8 +13,8 @@
     the eight value types (see the report: equality on it is not symmetric).
   * `marshaler ptrRecv result under`: a value of a type with a `MarshalValue` method returning
     `result` (non-nil), whose reflect structure is `under`.  With a pointer receiver only `*T` is a
-    `Marshaler`.  `nilMarshalerPtr` is a nil `*T` of such a type; calling the method on it is assumed
-    to dereference the receiver (it always does for value receivers) and therefore panics.
+    `Marshaler`.  `nilMarshalerPtr` is a nil `*T` of such a type: it converts to null (the nil-pointer test comes
+    before the Marshaler test; it used to call the method through the nil pointer and panic).
   * `time s` is a `time.Time` whose `Format(options.TimeFormat)` is `s`.
   * `keyedMap n` is a map whose key kind is not `String`, with `n` entries.
   * `unsupported` stands for every other kind (chan, func, complex, array, uintptr, unsafe pointer).
@@ -170,7 +170,7 @@ def convM (lc : Bool) : GoVal → Nat → Option (Value × Nat)
   | .marshaler false r _, n => some (r, n)                      -- value.(Marshaler)
   | .marshaler true _ u, n => convK lc u n                      -- T itself is not a Marshaler
   | .ptr (.marshaler _ r _), n => some (r, n)                   -- *T is, for both receiver kinds
-  | .nilMarshalerPtr, _ => none                                 -- method called through a nil pointer
+  | .nilMarshalerPtr, n => some (.null, n)                      -- a nil pointer is null whatever its type (/repo: checked before the Marshaler test)
   | g, n => convK lc g n
 /-- pointer/interface drilling followed by the kind switch (convert.go:37-83) -/
 def convK (lc : Bool) : GoVal → Nat → Option (Value × Nat)
